@@ -45,9 +45,11 @@ OuterBand(n, K) ==
   ELSE MinOf({r \in 1..MaxBand(n) : Cardinality(UpTo(n, r)) >= K})
 RingFeasible(n, K) == K >= 0 /\ K <= n * (n - 1)
 NearerBandsFull(n, A, K) ==
-  \A c \in OffDiag(n) : Off(n, c[1], c[2]) < OuterBand(n, K) => A[c[1]][c[2]] # 0
+  LET r == OuterBand(n, K) IN
+  \A c \in OffDiag(n) : Off(n, c[1], c[2]) < r => A[c[1]][c[2]] # 0
 NothingBeyondOuterBand(n, A, K) ==
-  \A c \in OffDiag(n) : Off(n, c[1], c[2]) > OuterBand(n, K) => A[c[1]][c[2]] = 0
+  LET r == OuterBand(n, K) IN
+  \A c \in OffDiag(n) : Off(n, c[1], c[2]) > r => A[c[1]][c[2]] = 0
 BandsNearestFirst(n, A, K) == NearerBandsFull(n, A, K) /\ NothingBeyondOuterBand(n, A, K)
 (* even n and K beyond n(n-2): the antipodal band (n cells, not 2n) is needed     *)
 NeedsAntipodalBand(n, K) == n % 2 = 0 /\ K > n * (n - 2)
